@@ -2,7 +2,7 @@
     Property theorems only; each is closed by [exact] of a lemma of [Proofs/]. *)
 From Coq Require Import List ZArith Bool.
 From EDS Require Import Model.Objects Model.PodSpec Model.Backoff Model.Rolling Model.ErsReconcile Model.EdsReconcile Model.Abstract
-     Proofs.Lists Proofs.RollingProofs Proofs.C11Proofs Proofs.C02Proofs Proofs.C16Proofs Proofs.ReadFaults Model.Default.
+     Proofs.Lists Proofs.RollingProofs Proofs.C11Proofs Proofs.C02Proofs Proofs.C16Proofs Proofs.ReadFaults Proofs.BackoffProofs Model.Default Model.Filter.
 Import ListNotations.
 Open Scope Z_scope.
 
@@ -63,3 +63,21 @@ Theorem C11_eds_list_failure_writes_nothing : forall sn pl e,
   es_fail_list_rs sn = true -> es_obj sn = Some e -> is_defaulted e = true -> eds_sync sn = Ok pl -> False.
 Proof. exact eds_list_failure_writes_nothing. Qed.
 Print Assumptions C11_eds_list_failure_writes_nothing.
+
+(** The one piece of in-memory state, the failed-pod back-off, is per replica set: the sync of one replica set neither
+    writes the entries of another replica set ... *)
+Theorem C11_backoff_not_written_by_others : forall rs nodes pods ignore now bo k',
+  fst k' <> r_name rs ->
+  bo_get k' (fo_backoff (filter_and_map rs nodes pods ignore now bo)) = bo_get k' bo.
+Proof. exact backoff_not_written_by_others. Qed.
+Print Assumptions C11_backoff_not_written_by_others.
+
+(** ... nor reads them: with two memories that agree on this replica set's own keys, what the sync keeps per node, cleans
+    up and reports unscheduled is the same - a superseded replica set of the same ExtendedDaemonSet, reconciled first every
+    time, cannot use up the back-off of the active one *)
+Theorem C11_backoff_not_read_from_others : forall rs nodes pods ignore now bo bo',
+  (forall nn, bo_get (r_name rs, nn) bo = bo_get (r_name rs, nn) bo') ->
+  let f := filter_and_map rs nodes pods ignore now bo in let f' := filter_and_map rs nodes pods ignore now bo' in
+  fo_by_node f = fo_by_node f' /\ fo_cleanup f = fo_cleanup f' /\ fo_unscheduled f = fo_unscheduled f'.
+Proof. exact backoff_not_read_from_others. Qed.
+Print Assumptions C11_backoff_not_read_from_others.
